@@ -463,6 +463,10 @@ pub assume_specification<T: Ord> [core::cmp::max] (a: T, b: T) -> (ret: T)
 pub assume_specification [i64::saturating_sub] (a: i64, b: i64) -> (ret: i64)
     ensures ret == (if a - b > i64::MAX { i64::MAX } else if a - b < i64::MIN { i64::MIN } else { (a - b) as i64 });
 
+pub assume_specification<T, U> [Option::<T>::zip] (a: Option<T>, b: Option<U>) -> (ret: Option<(T, U)>)
+    ensures ret == (if a.is_some() && b.is_some() { Some((a.unwrap(), b.unwrap())) } else { None::<(T, U)> });
+
+
 pub assume_specification [core::cmp::Ordering::reverse] (o: Ordering) -> (ret: Ordering)
     ensures ret == (match o { Ordering::Less => Ordering::Greater, Ordering::Equal => Ordering::Equal, Ordering::Greater => Ordering::Less });
 
